@@ -108,9 +108,12 @@ class R:
             self.w(" else ")
             self.sub(a[2])
         elif k in ("call", "fcall"):
-            self.w(s + "(")
+            # (a hash is an arbitrary 32-bit number: as a repetition count it would ask for gigabytes;
+            # it is reduced, which leaves its static type and the rule exercised unchanged)
+            small = k == "call" and s == "hash"
+            self.w(("(" if small else "") + s + "(")
             self.seq(a)
-            self.w(")")
+            self.w(")" + (" % 3)" if small else ""))
         elif k == "fcallkw":
             ps = self.defs[s]["ps"]
             self.w(s + "(")
@@ -296,6 +299,18 @@ class Renderer:
 
     def src(self):
         return "\n".join(self.chunks) + "\n"
+
+    def def_rules_at(self, span):
+        """The rules used anywhere in the def (or module-level line) that contains the span."""
+        mt = re.match(r"^[^:]+:(\d+):", span or "")
+        if not mt:
+            return set()
+        line = int(mt.group(1))
+        lo, hi = line, line
+        for n, (a, b) in self.def_lines.items():
+            if a <= line <= b:
+                lo, hi = a, b
+        return {e[2] for ln in range(lo, hi + 1) for e in self.spans.get(ln, [])}
 
     def receiver_rule(self, span):
         """For an error reported at an attribute name (`recv.attr`): the rule that produced the receiver
@@ -632,6 +647,11 @@ def cause_of(rd, span, msg, line_text):
     `on_type` / `receiver_rule`: an attribute refused on a receiver of that checker type, produced by that rule;
     `never_element`: a tuple display, indexed, with an element that cannot produce a value (`{}[k]`, `[].pop()`)."""
     out = {}
+    if "float" in msg:
+        # the generated modules have no float anywhere: a checker message that names `float` can only
+        # come from the rule that types a product with an int operand as a number
+        out["mentions_float"] = True
+        out["def_has_int_times_seq"] = bool(rd.def_rules_at(span) & {"int*str", "int*list", "str*int", "list*int"})
     m = re.search(r"attribute `[^`]*` is not available on the type `([^`]*)`", msg)
     if m:
         out["on_type"] = m.group(1)
